@@ -19,21 +19,30 @@ allbit = z3.Function("allbit", SeqI, BoolS)   # every element is 0 or 1 (unfolde
 
 
 def allbit_of(t, side=None):
+    """formula for allbit(t) with the constructors unfolded; `side` receives the definitional equation
+    allbit(t) == <unfolding> and the slice implications"""
+    f = _allbit_of_raw(t, side)
+    if side is not None:
+        side.append(allbit(z3.simplify(t)) == f)
+    return f
+
+
+def _allbit_of_raw(t, side=None):
     t = z3.simplify(t)
     if z3.is_app(t):
         k = t.decl().kind()
         if k == z3.Z3_OP_SEQ_CONCAT:
-            return z3.And(*[allbit_of(a, side) for a in t.children()])
+            return z3.And(*[_allbit_of_raw(a, side) for a in t.children()])
         if k == z3.Z3_OP_SEQ_UNIT:
             c = t.arg(0)
             return z3.Or(c == 0, c == 1)
         if k == z3.Z3_OP_SEQ_EMPTY:
             return z3.BoolVal(True)
         if k == z3.Z3_OP_ITE:
-            return z3.If(t.arg(0), allbit_of(t.arg(1), side), allbit_of(t.arg(2), side))
+            return z3.If(t.arg(0), _allbit_of_raw(t.arg(1), side), _allbit_of_raw(t.arg(2), side))
         if k == z3.Z3_OP_SEQ_EXTRACT:
             if side is not None:
-                side.append(z3.Implies(allbit_of(t.arg(0), side), allbit(t)))
+                side.append(z3.Implies(_allbit_of_raw(t.arg(0), side), allbit(t)))
                 side.append(z3.Implies(z3.Length(t) == 0, allbit(t)))
             return allbit(t)
         if t.decl().eq(BITS):
